@@ -577,6 +577,8 @@ class DecoWorld(LineWorld):
         super().__init__(cfg, ot, choices, methods, all_methods)
         self.repo = repo
         self.func_calls = []
+        self.renames = []           # (src, dst, number of wrapped calls made so far)
+        self.removed = []
         self.globals = _module_globals(repo, DECORATORS)
 
     def resolve_name(self, ip, name, node):
@@ -628,6 +630,15 @@ class DecoWorld(LineWorld):
             return Opaque("result of the wrapped function")
         if isinstance(f, Opaque) and f.tag in ("module:os.fspath", "module:os.fsdecode", "module:os.path.expanduser") and len(args) == 1:
             return args[0]
+        if isinstance(f, Opaque) and f.tag in ("module:os.replace", "module:os.rename", "module:shutil.move") and len(args) == 2 \
+                and all(isinstance(a, Const) and isinstance(a.v, str) for a in args):
+            self.renames.append((args[0].v, args[1].v, len(self.func_calls)))
+            return NONE
+        if isinstance(f, Opaque) and f.tag in ("module:os.remove", "module:os.unlink") and len(args) == 1 and isinstance(args[0], Const):
+            self.removed.append(args[0].v)
+            return NONE
+        if isinstance(f, Opaque) and f.tag in ("module:os.path.exists", "module:os.path.isfile") and len(args) == 1:
+            return Const(self.choose(("path-exists", repr(args[0]))))
         if isinstance(f, Opaque) and f.tag in ("module:gzip.open", "module:bz2.BZ2File", "module:gzip.GzipFile", "module:bz2.open"):
             mode = kwargs.get("mode", args[1] if len(args) > 1 else Const("r"))
             return OpenedV(f.tag.split(":")[1], args[0], mode.v if isinstance(mode, Const) else repr(mode))
@@ -722,10 +733,18 @@ def check_decorator(repo: Repo, rep: Report):
                 got = args[1] if len(args) > 1 else None
                 if kind.startswith("str:"):
                     want_opener = dict(cases)[kind[4:]]
-                    ok = isinstance(got, OpenedV) and got.opener == want_opener and got.mode == mode and isinstance(got.path, Const) and got.path.v == kind[4:]
+                    # where the opened file ends up: a writer may go through a temporary sibling that is moved over the target
+                    final = got.path.v if isinstance(got, OpenedV) and isinstance(got.path, Const) else None
+                    for (src_, dst_, after) in w.renames:
+                        if final is not None and src_ == final and after >= 1 and mode.startswith("w"):
+                            final = dst_
+                    if final in w.removed:
+                        final = None
+                    ok = isinstance(got, OpenedV) and got.opener == want_opener and got.mode == mode and final == kind[4:]
                     if not ok:
-                        rep.finding("L.open_file", construct, "opener:%s" % kind[4:].split(".")[-1], "a path %r is handed to the wrapped function as %r, "
-                                    "expected %s(path, mode=%r)" % (kind[4:], got, want_opener, mode), witness=wit)
+                        rep.finding("L.open_file", construct, "opener:%s" % kind[4:].split(".")[-1], "a path %r is handed to the wrapped function as %r%s, "
+                                    "expected %s(path, mode=%r)" % (kind[4:], got, (" (moved to %r afterwards)" % final) if w.renames else "",
+                                                                     want_opener, mode), witness=wit)
                     elif not got.closed:
                         rep.finding("L.open_file", construct, "not-closed", "the file the decorator opened for %r is not closed after the call" % kind[4:], witness=wit)
                     elif [c for c in got.calls if c != "close"]:
@@ -946,3 +965,196 @@ def _judge_replay_line(cc, construct, cls, op, ot, w, kind, val):
         cc.add("C10.replay", construct, "minus-row:%s" % gap,
                "after '+' at p, a '-' row at s (%s) is replayed as %s; the pair must stay present through s-1 and the vanishing must be "
                "logged at s: add_interaction(u, v, t=<instant of the last run>, e=s)" % (gap, [(repr(c[2]), repr(c[3])) for c in rest]), wit)
+
+
+# ---------------------------------------------------------------------------------------------------
+# whole event logs (several pairs, reciprocal directions, interleaving): concrete offsets, state by specification
+# ---------------------------------------------------------------------------------------------------
+LOG_GRAPHS = [
+    # (label, directed only?, {(source, target): [(first, last), ...]})   instants are t + k
+    ("one pair, two runs", False, {("A", "B"): [(1, 3), (6, 6)]}),
+    ("two pairs sharing a node, interleaved", False, {("A", "B"): [(1, 4)], ("B", "C"): [(2, 2), (4, 7)]}),
+    ("closed one-instant run, then a longer one", False, {("A", "B"): [(2, 2), (5, 8)], ("A", "C"): [(5, 5)]}),
+    ("reciprocal directions, overlapping", True, {("A", "B"): [(1, 5)], ("B", "A"): [(3, 8)]}),
+    ("reciprocal directions, nested and re-appearing", True, {("A", "B"): [(1, 9)], ("B", "A"): [(2, 3), (6, 7)], ("B", "C"): [(3, 3)]}),
+    ("self-loop and a pair", False, {("A", "A"): [(1, 2)], ("A", "B"): [(2, 4)]}),
+]
+
+
+def _log_events(timelines, close_points=False):
+    ev = []
+    for (u, v), runs in timelines.items():
+        for (lo, hi) in runs:
+            ev.append((lo, 0, u, v, "+"))
+            if hi > lo or close_points:
+                ev.append((hi + 1, 1, u, v, "-"))
+    ev.sort(key=lambda e: (e[0], e[1], e[2], e[3]))
+    return [(u, v, op, k) for (k, _, u, v, op) in ev]
+
+
+class LogAdj:
+    def __init__(self, g):
+        self.g = g
+
+
+class LogRow:
+    def __init__(self, g, u):
+        self.g, self.u = g, u
+
+
+class LogWorld(LineWorld):
+    """The recording graph answers questions about its adjacency from the calls it has received so far, replayed by the
+    *specification* of add_interaction (C01: union of spans, merge of adjacent / overlapping runs)."""
+
+    def __init__(self, cfg, ot, choices, methods, all_methods):
+        super().__init__(cfg, ot, choices, methods, all_methods)
+        self.state = {}           # pair key -> list of [lo, hi] offsets
+        self.rejected = []
+
+    def key(self, u, v):
+        return (u, v) if self.directed else tuple(sorted((u, v)))
+
+    def _n(self, x):
+        if isinstance(x, Tok) and x.name.startswith("n:") and not x.dirty and not x.conv:
+            return x.name[2:]
+        if isinstance(x, NodeV):
+            return x.role
+        return None
+
+    def call(self, ip, f, args, kwargs, node):
+        if isinstance(f, Converter) and f.name == "timestamptype" and len(args) == 1 and isinstance(args[0], Tok) \
+                and args[0].name.startswith("t:") and not args[0].dirty:
+            return Int("t", int(args[0].name[2:]))
+        return super().call(ip, f, args, kwargs, node)
+
+    def load_attr(self, ip, obj, attr, node):
+        if isinstance(obj, NewGraph) and attr in ("adj", "_adj", "succ", "_succ"):
+            return LogAdj(obj)
+        if isinstance(obj, (LogAdj, LogRow)):
+            return BoundMethod(obj, attr)
+        return super().load_attr(ip, obj, attr, node)
+
+    def nodes_of(self):
+        return {n for k in self.state for n in k}
+
+    def _data(self, u, v, node):
+        k = self.key(u, v)
+        if k not in self.state:
+            return None
+        tl = ListObj([ListObj([Int("t", a), Int("t", b)]) for a, b in self.state[k]])
+        return DictObj({Const("t"): tl})
+
+    def load_subscript(self, ip, obj, key, node):
+        if isinstance(obj, LogAdj):
+            n = self._n(key)
+            if n is None or n not in self.nodes_of():
+                raise AbstractRaise("KeyError", node, detail="the graph under construction has no node %r" % (key,))
+            return LogRow(obj.g, n)
+        if isinstance(obj, LogRow):
+            n = self._n(key)
+            d = self._data(obj.u, n, node) if n is not None else None
+            if d is None:
+                raise AbstractRaise("KeyError", node, detail="the graph under construction has no interaction %s-%s" % (obj.u, key))
+            return d
+        return super().load_subscript(ip, obj, key, node)
+
+    def contains(self, ip, container, x, node):
+        if isinstance(container, LogAdj):
+            return self._n(x) in self.nodes_of()
+        if isinstance(container, LogRow):
+            n = self._n(x)
+            return n is not None and self.key(container.u, n) in self.state and (
+                not self.directed or (container.u, n) in self.state)
+        return super().contains(ip, container, x, node)
+
+    def call_method(self, ip, obj, name, args, kwargs, node):
+        if isinstance(obj, NewGraph) and name == "add_interaction":
+            r = super().call_method(ip, obj, name, args, kwargs, node)
+            u, v, t, e = obj.calls[-1][:4]
+            nu, nv = self._n(u), self._n(v)
+            if nu is None or nv is None or not (isinstance(t, Int) and t.base == "t"):
+                raise Unsupported(node, "add_interaction(%r, %r, %r, %r) in the log replay" % (u, v, t, e))
+            lo = t.k
+            if isinstance(e, Const) and e.v is None:
+                hi = lo
+            elif isinstance(e, Int) and e.base == "t":
+                hi = e.k - 1
+            else:
+                raise Unsupported(node, "vanishing time %r" % (e,))
+            if hi < lo:
+                return r            # an empty span adds nothing
+            tl = self.state.setdefault(self.key(nu, nv), [])
+            if not tl:
+                tl.append([lo, hi])
+            elif lo < tl[-1][0]:
+                self.rejected.append((nu, nv, lo, tl[-1][0]))
+                raise AbstractRaise("ValueError", node, explicit=True, detail="add_interaction rejects a span starting at t%+d before "
+                                    "the start t%+d of the latest run" % (lo, tl[-1][0]))
+            elif lo <= tl[-1][1] + 1:
+                tl[-1][1] = max(tl[-1][1], hi)
+            else:
+                tl.append([lo, hi])
+            return r
+        if isinstance(obj, NewGraph) and name in ("has_edge", "has_interaction") and len(args) >= 2:
+            nu, nv = self._n(args[0]), self._n(args[1])
+            if name == "has_edge" or len(args) == 2:
+                return Const(self.key(nu, nv) in self.state)
+        if isinstance(obj, (LogAdj, LogRow)) and name == "get" and 1 <= len(args) <= 2:
+            try:
+                return self.load_subscript(ip, obj, args[0], node)
+            except AbstractRaise:
+                return args[1] if len(args) == 2 else NONE
+        return super().call_method(ip, obj, name, args, kwargs, node)
+
+
+def check_event_logs(cc, cls):
+    """parse_interactions on whole logs written from known presence relations (several pairs, reciprocal directions,
+    interleaved and nested runs, closed one-instant runs): the graph read back must have exactly those timelines."""
+    repo = cc.repo
+    fn = repo.get(EDGELIST, "parse_interactions")
+    construct = repo.construct(EDGELIST, "parse_interactions") + "[%s]" % cls
+    directed = cls == "DynDiGraph"
+    ot = OrderType([["t"]], [], 16)
+    n = 0
+    for (label, directed_only, timelines) in LOG_GRAPHS:
+        if directed_only and not directed:
+            continue
+        for close_points in (False, True):
+            events = _log_events(timelines, close_points)
+            lines = [LineV([Tok("n:" + u), Tok("n:" + v), Tok("op", op), Tok("t:%d" % k)], sep="ws") for (u, v, op, k) in events]
+            n += 1
+            cc.instances += 1
+
+            def once(ch):
+                cfg = dict(cls=cls, directed=directed, removal=True, exists=False, closed=False, L="uv")
+                w = LogWorld(cfg, ot, ch, cc.all_methods[cls], cc.all_methods)
+                ip = CtorInterp(w, ot, max_depth=6)
+                env = {"lines": ListObj(list(lines)), "comments": Const("#"), "directed": Const(directed), "delimiter": NONE,
+                       "nodetype": NONE, "timestamptype": Converter("timestamptype"), "keys": NONE}
+                try:
+                    return ("ok", w, ip.call_function(fn, env))
+                except AbstractRaise as r:
+                    return ("raise", w, r)
+            for ch, (kind, w, val) in run_all_choices(once, max_runs=64):
+                cc.n_runs += 1
+                if any(v for k, v in ch.items() if isinstance(k, tuple) and k[0].startswith("conversion")):
+                    continue
+                wit = "%s | log: %s" % (label, " / ".join("%s %s %s t%+d" % e for e in events))
+                if kind == "raise":
+                    cc.add("C10.log", construct, "raises:%s" % val.exc, "replaying the log raises %s (%s)" % (val.exc, val.detail), wit,
+                           getattr(val.node, "lineno", 0))
+                    continue
+                want = {}
+                for (u, v), runs in timelines.items():
+                    k = (u, v) if directed else tuple(sorted((u, v)))
+                    want.setdefault(k, set()).update(o for lo, hi in runs for o in range(lo, hi + 1))
+                got = {k: {o for lo, hi in tl for o in range(lo, hi + 1)} for k, tl in w.state.items()}
+                for k in sorted(set(want) | set(got)):
+                    g_, w_ = got.get(k, set()), want.get(k, set())
+                    if g_ != w_:
+                        kind2 = "missing" if w_ - g_ and not g_ - w_ else ("extra" if g_ - w_ and not w_ - g_ else "wrong")
+                        recip = directed and (k[1], k[0]) in want and k[0] != k[1]
+                        cc.add("C10.log", construct, "presence:%s%s" % (kind2, ":reciprocal-pair" if recip else ""),
+                               "after reading the log, %s%s%s is present at %s; the log describes %s" % (
+                                   k[0], "->" if directed else "-", k[1], sorted("t%+d" % o for o in g_), sorted("t%+d" % o for o in w_)), wit)
+    return n
